@@ -312,6 +312,9 @@ def run(model, tier="quick"):
                       f"(parameter-mutating functions: {sorted(mutating)})", "demeter/", ok=_nf == 0)
     from ..rules.alias import loop_sharing_rule
     res.units["objects_built_before_a_loop_and_passed_inside"] = loop_sharing_rule(model, res, scope=() if res.prop == "C19" else ("demeter/core/", "demeter/broker/"))
+    # constructors establish the relations between fields that the references above take for granted
+    from .ctor_refs import constructors
+    res.units["constructor_references"] = constructors(res, model, ('market', 'broker', 'pool', 'squeeth', 'deribit', 'gmx2', 'aave'))
     from ..rules.fresh import fresh_rule
     if "R-FRESH" not in res.rules:
         res.rules.append("R-FRESH")
